@@ -7,11 +7,13 @@ Import ListNotations.
 Local Open Scope N_scope.
 
 Inductive gcase :=
-  (** one-shot digest: variant (224/256/384/512), length, message, implementation digest *)
-| GD (v len msg dig : N)
-  (** through hook H2: variant, chaining value as stored, block_counter, buffered length and
-      bytes, tail length and bytes, implementation digest of (state; update tail; finalize) *)
-| GS (v cv count blen buffered tlen tail dig : N)
+  (** digest of a message fed in two [update] calls ([split] = length of the first):
+      variant (224/256/384/512), length, message, split, implementation digest *)
+| GD (v len msg split dig : N)
+  (** through hook H2: variant, build profile (overflow checks on?), chaining value as
+      stored, block_counter, buffered length and bytes, tail length and bytes, did the
+      implementation panic, its digest of (state; update tail; finalize) *)
+| GS (v : N) (debug : bool) (cv count blen buffered tlen tail : N) (panicked : bool) (dig : N)
   (** one intrinsic on this host's CPU: op code, immediate, operands, result *)
 | GI (op imm a b r : N).
 
@@ -24,15 +26,32 @@ Definition params_of (v : N) : Spec.Groestl.params :=
 
 Definition model_digest (v : N) (msg : list N) : list N :=
   digest (comp_of v) v (out_of v) msg.
+(** two [update] calls, as the harness does *)
+Definition model_digest2 (v : N) (msg : list N) (split : nat) : list N :=
+  let c := comp_of v in
+  out_of v (finalize_dirty c (update c (update c (new_truncated c v) (firstn split msg)) (skipn split msg))).
 Definition spec_digest (v : N) (msg : list N) : list N :=
   Spec.Groestl.hash sbox_fast (params_of v) (N.to_nat (v / 8)) msg.
 
-Definition model_from (v cv count : N) (buffered tail : list N) : list N :=
+Definition entered (v cv count : N) (buffered : list N) : hasher :=
   let c := comp_of v in
   let bs := N.of_nat (c_bytes c) in
-  let h := H (fst (input_block (bb_new (c_bytes c)) buffered)) count
-             (regs_of_bytes (Nat.div (c_bytes c) 16) (B bs cv)) in
-  out_of v (finalize_dirty c (update c h tail)).
+  H (fst (input_block (bb_new (c_bytes c)) buffered)) count
+    (regs_of_bytes (Nat.div (c_bytes c) 16) (B bs cv)).
+(** [None] = panic *)
+Definition model_from (debug : bool) (v cv count : N) (buffered tail : list N) : option (list N) :=
+  let c := comp_of v in
+  match update_chk debug c (entered v cv count buffered) tail with
+  | None => None
+  | Some h => match finalize_chk debug c h with
+              | None => None
+              | Some r => Some (out_of v r)
+              end
+  end.
+(** number of blocks the padded message has in total (prior ones included) *)
+Definition total_blocks (v count : N) (buffered tail : list N) : N :=
+  let bs := Spec.Groestl.block_bytes (params_of v) in
+  count + N.of_nat (Spec.Groestl.pad_blocks bs (length buffered + length tail)).
 Definition spec_from (v cv count : N) (buffered tail : list N) : list N :=
   let p := params_of v in
   let bs := N.of_nat (Spec.Groestl.block_bytes p) in
@@ -65,12 +84,19 @@ Definition intrinsic (op imm : N) (a b : reg) (a64 b64 : N) : reg :=
 
 Definition run_c07 (c : gcase) : bool :=
   match c with
-  | GD v len msg dig =>
+  | GD v len msg split dig =>
       let m := B len msg in let d := B (v / 8) dig in
-      list_eqb (model_digest v m) d && list_eqb (spec_digest v m) d
-  | GS v cv count blen buffered tlen tail dig =>
+      list_eqb (model_digest2 v m (N.to_nat split)) d && list_eqb (spec_digest v m) d
+  | GS v debug cv count blen buffered tlen tail panicked dig =>
       let bf := B blen buffered in let tl := B tlen tail in let d := B (v / 8) dig in
-      list_eqb (model_from v cv count bf tl) d && list_eqb (spec_from v cv count bf tl) d
+      match model_from debug v cv count bf tl with
+      | None => panicked
+      | Some r => negb panicked && list_eqb r d
+      end
+      (* the specification speaks about messages of fewer than 2^64 blocks: there the
+         implementation must not panic and must return the specified digest *)
+      && (if total_blocks v count bf tl <? 18446744073709551616
+          then negb panicked && list_eqb (spec_from v cv count bf tl) d else true)
   | GI op imm a b r =>
       list_eqb (intrinsic op imm (B 16 a) (B 16 b) a b) (B 16 r)
   end.
@@ -78,10 +104,13 @@ Definition run_c07 (c : gcase) : bool :=
 (** for replay files: model result, spec result (big-endian numbers = hex digests) *)
 Definition explain_c07 (c : gcase) : list N :=
   match c with
-  | GD v len msg dig =>
-      let m := B len msg in [be_join (model_digest v m); be_join (spec_digest v m)]
-  | GS v cv count blen buffered tlen tail dig =>
+  | GD v len msg split dig =>
+      let m := B len msg in [be_join (model_digest2 v m (N.to_nat split)); be_join (spec_digest v m)]
+  | GS v debug cv count blen buffered tlen tail panicked dig =>
       let bf := B blen buffered in let tl := B tlen tail in
-      [be_join (model_from v cv count bf tl); be_join (spec_from v cv count bf tl)]
+      [match model_from debug v cv count bf tl with None => 0 | Some r => be_join r end;
+       be_join (spec_from v cv count bf tl);
+       match model_from debug v cv count bf tl with None => 1 | Some _ => 0 end;
+       total_blocks v count bf tl]
   | GI op imm a b r => [be_join (intrinsic op imm (B 16 a) (B 16 b) a b)]
   end.
